@@ -358,7 +358,7 @@ def native_part(prop, tier, tmp, only=None):
 
 def native_contracts_part(prop, tier, tmp, exe=None, only=None):
     """BOUNDED stand-in beyond Kani's capacities: the harness-encoded contracts of the property are ENUMERATED natively on the
-    real code at the capacities listed under ns['native'] (6, 7, 8): every layout x small arguments, until exhausted or a
+    real code at the capacities listed under ns['native'] (6; 7, 8, 12, 15 for the basic contracts): every layout x small arguments, until exhausted or a
     budget is spent.  A failing clause of this property is a violation with a concrete input; labelled bounded."""
     pairs = []
     for e in HARNESSES:
@@ -396,7 +396,7 @@ def native_contracts_part(prop, tier, tmp, exe=None, only=None):
             vs.append(dict(property=prop, leg='native-bounded', function=e['fn'], obligation=first[0][:200], n=n, harness=nm,
                            detail='%s enumerated natively at N=%d: %s' % (e['fn'], n, first[0][:300]), verifier_output=msg,
                            prefound=dict(harness=nm, choices=r.get('choices', ''), inputs=r.get('inputs', ''), message=msg, runs=r.get('runs'))))
-    ev = dict(kind='BOUNDED stand-in: the same harness-encoded contracts enumerated natively on the real code at capacities beyond the Kani leg (6..8); '
+    ev = dict(kind='BOUNDED stand-in: the same harness-encoded contracts enumerated natively on the real code at capacities beyond the Kani leg (6 for all; 7, 8, 12, 15 for single-element operations, views and the ZST contract); '
                    'exhausted or cut by a run/time budget as stated per row; never counted as proved', contracts=rows)
     return dict(status='ok', violations=vs, evidence=ev, scratch=scratch, reason='')
 
@@ -762,7 +762,7 @@ def write_evidence(prop, tier, seed, spec, vp, kp, new_v, known_v, fixed, wall, 
     if np_:
         cov['bounded_native_stand_in'] = np_['evidence']
     if nc_ and nc_.get('evidence'):
-        cov['bounded_native_enumeration_of_contracts_at_N_6_to_8'] = nc_['evidence']
+        cov['bounded_native_enumeration_of_contracts_beyond_kani_capacities'] = nc_['evidence']
     cov['functions_under_contract'] = sorted(set([r['function'] for r in (vev or {}).get('functions', [])] +
                                                  [r['contract'] for r in (kev or {}).get('harnesses', [])]))
     cov['not_covered'] = spec.get('not_covered', [])
